@@ -48,10 +48,12 @@ static void ref_md5(const uint8_t *msg, size_t n, uint8_t out[16]) {
     static const int S[64] = {7, 12, 17, 22, 7, 12, 17, 22, 7, 12, 17, 22, 7, 12, 17, 22, 5, 9, 14, 20, 5, 9, 14, 20, 5, 9, 14, 20, 5, 9, 14, 20, 4, 11, 16, 23, 4, 11, 16, 23, 4, 11, 16, 23, 4, 11, 16, 23, 6, 10, 15, 21, 6, 10, 15, 21, 6, 10, 15, 21, 6, 10, 15, 21};
     if (!MD5K[0]) for (int i = 0; i < 64; i++) MD5K[i] = (uint32_t)floor(fabs(sin((double)(i + 1))) * 4294967296.0);
     uint32_t a0 = 0x67452301, b0 = 0xefcdab89, c0 = 0x98badcfe, d0 = 0x10325476;
-    size_t tot = ((n + 8) / 64 + 1) * 64; uint8_t *m = calloc(tot, 1); memcpy(m, msg, n); m[n] = 0x80;
-    uint64_t bits = (uint64_t)n * 8; for (int i = 0; i < 8; i++) m[tot - 8 + i] = (bits >> (8 * i)) & 255;
+    /* whole blocks are read from the message itself, only the padded tail (at most two blocks) is built in a buffer */
+    size_t tot = ((n + 8) / 64 + 1) * 64, body = n / 64 * 64; uint8_t tailb[128]; memset(tailb, 0, sizeof tailb); memcpy(tailb, msg + body, n - body); tailb[n - body] = 0x80;
+    uint64_t bits = (uint64_t)n * 8; for (int i = 0; i < 8; i++) tailb[tot - body - 8 + i] = (bits >> (8 * i)) & 255;
     for (size_t off = 0; off < tot; off += 64) {
-        uint32_t M[16]; for (int i = 0; i < 16; i++) M[i] = le32(m + off + 4 * i);
+        const uint8_t *blk = off < body ? msg + off : tailb + (off - body);
+        uint32_t M[16]; for (int i = 0; i < 16; i++) M[i] = le32(blk + 4 * i);
         uint32_t A = a0, B = b0, C = c0, D = d0;
         for (int i = 0; i < 64; i++) {
             uint32_t F; int g;
@@ -61,7 +63,6 @@ static void ref_md5(const uint8_t *msg, size_t n, uint8_t out[16]) {
         }
         a0 += A; b0 += B; c0 += C; d0 += D;
     }
-    free(m);
     uint32_t r[4] = {a0, b0, c0, d0};
     for (int i = 0; i < 4; i++) for (int j = 0; j < 4; j++) out[4 * i + j] = (r[i] >> (8 * j)) & 255;
 }
@@ -356,6 +357,11 @@ static void run_hugelen(int thorough) {
         else if (q[0] != qr[0] || q[1] != qr[1]) vc_viol("murmur3_128:value", "%s: differs from MurmurHash3_x64_128 of these %zu bytes", key, n);
         vc_label("qhashfnv1_32");
         if (qhashfnv1_32(buf, n) != ref_fnv32(buf, n)) vc_viol("fnv1_32:value", "%s: differs from FNV-1 32 of these %zu bytes", key, n);
+        if (i == 0) {   /* MD5 of 2^29 + 777 bytes in one call: the bit count of a single update no longer fits into 32 bits */
+            size_t mn = 536870912u + 777; uint8_t m1[16], m2[16]; vc_label("qhashmd5");
+            if (!qhashmd5(buf, mn, m1)) vc_viol("md5:false", "%s: qhashmd5 of %zu bytes returned false", key, mn);
+            else { ref_md5(buf, mn, m2); if (memcmp(m1, m2, 16)) vc_viol("md5:value", "%s: qhashmd5 of %zu bytes differs from RFC 1321 MD5", key, mn); }
+        }
         buf[n - 1] = buf[n - 2] = buf[n - 17] = 0;
         vc_case_end();
     }
